@@ -8,6 +8,7 @@ import (
 
 	structform "github.com/elastic/go-structform"
 	"github.com/elastic/go-structform/gotype"
+	"github.com/elastic/go-structform/visitors"
 )
 
 // =================== C12 / C17: custom folders, Folder, IsZeroer ===================
@@ -80,6 +81,26 @@ func (o ufKR) Fold(v structform.ExtVisitor) error {
 	}
 	return v.OnObjectFinished()
 }
+
+// ufFv: Fold is a value method; ufFI: an interface type that embeds Folder
+type ufFv struct{ N int }
+
+func (f ufFv) Fold(v structform.ExtVisitor) error { return v.OnString("fv") }
+
+type ufFI interface{ gotype.Folder }
+
+// Folder implemented on the POINTER of named map / slice / array types
+type ufPfMap map[string]int
+
+func (m *ufPfMap) Fold(v structform.ExtVisitor) error { return v.OnString("pfmap") }
+
+type ufPfSlice []int
+
+func (m *ufPfSlice) Fold(v structform.ExtVisitor) error { return v.OnString("pfslice") }
+
+type ufPfArr [2]int
+
+func (m *ufPfArr) Fold(v structform.ExtVisitor) error { return v.OnString("pfarr") }
 
 // ufS implements fmt.Stringer (an interface WITH methods) and folds as a plain struct
 type ufS struct{ N int }
@@ -417,12 +438,46 @@ func userPlacement(idx int, r *rng) (interface{}, interface{}) {
 	case 42:
 		// values behind interfaces WITH methods fold as what they hold
 		return struct {
-			M map[string]fmt.Stringer
-			S fmt.Stringer
-			E error
-			L []fmt.Stringer
-		}{map[string]fmt.Stringer{k: ufS{n}}, ufS{n + 1}, nil, []fmt.Stringer{ufS{1}, nil}},
+				M map[string]fmt.Stringer
+				S fmt.Stringer
+				E error
+				L []fmt.Stringer
+			}{map[string]fmt.Stringer{k: ufS{n}}, ufS{n + 1}, nil, []fmt.Stringer{ufS{1}, nil}},
 			xo{{"m", xo{{k, xo{{"n", n}}}}}, {"s", xo{{"n", n + 1}}}, {"e", nil}, {"l", []interface{}{xo{{"n", 1}}, nil}}}
+	case 45:
+		// more nil pointers through one iterator than any sensible nesting limit
+		return struct {
+				L []*int
+				P *int
+				M map[string]*int
+			}{make([]*int, 1500), &n, map[string]*int{k: nil}},
+			xo{{"l", make([]interface{}, 1500)}, {"p", n}, {"m", xo{{k, nil}}}}
+	case 43:
+		// a nil pointer whose Fold is a VALUE method, held by an interface type that embeds Folder
+		return struct {
+				A ufFI
+				L []ufFI
+				M map[string]ufFI
+				Z ufFI
+			}{(*ufFv)(nil), []ufFI{(*ufFv)(nil), ufFv{n}, &ufFv{n}}, map[string]ufFI{k: (*ufFv)(nil)}, nil},
+			xo{{"a", nil}, {"l", []interface{}{nil, "fv", "fv"}}, {"m", xo{{k, nil}}}, {"z", nil}}
+	case 44:
+		// a Folder with a POINTER receiver on named map / slice / array types, wherever the value sits
+		switch r.n(5) {
+		case 0:
+			return ufPfMap{k: n}, "pfmap"
+		case 1:
+			return []interface{}{ufPfMap{k: n}, ufPfSlice{n}, ufPfArr{n, 1}}, []interface{}{"pfmap", "pfslice", "pfarr"}
+		case 2:
+			return map[string]interface{}{k: ufPfSlice{}}, xo{{k, "pfslice"}}
+		case 3:
+			return ufPfSlice{n, n}, "pfslice"
+		}
+		return struct {
+			F ufPfMap
+			G interface{}
+			H []ufPfSlice
+		}{ufPfMap{}, ufPfSlice{n}, []ufPfSlice{{1}}}, xo{{"f", "pfmap"}, {"g", "pfslice"}, {"h", []interface{}{"pfslice"}}}
 	case 37:
 		// inlined interface{} inside a value held by an inlined interface{}
 		return struct {
@@ -433,7 +488,7 @@ func userPlacement(idx int, r *rng) (interface{}, interface{}) {
 	panic("userPlacement")
 }
 
-const nUserPlacements = 43
+const nUserPlacements = 46
 
 // placement 20 needs the value it generated: build it here with one rng so that value and expectation agree
 func userPlacementFixed(idx int, seed uint64) (interface{}, interface{}) {
@@ -501,6 +556,15 @@ func userfoldRun(mode string, items [][2]uint64) string {
 				continue
 			}
 			v, x := userPlacementFixed(int(item[0]), item[1])
+			if item[1]%2 == 0 {
+				// the same value goes through Fold WITHOUT any option first (its result does not
+				// matter): whatever that leaves behind in the process must not change what the
+				// iterator with the registered folders does
+				func() {
+					defer func() { recover() }()
+					gotype.Fold(v, visitors.NilVisitor())
+				}()
+			}
 			xrec.evs = nil
 			err = it.Fold(v)
 			if i == len(items)-1 {
